@@ -538,11 +538,125 @@ func c17Depr(c *Ctx, r *Report) {
 				}
 				return true
 			})
+			if !(hasArgTest && hasFilter) {
+				// the same fact read from the value flow, whatever the statement form
+				if fn := c.fn("(*" + srv + ").Resolve"); fn != nil && c17DeprFlow(c, fn, nm) {
+					hasArgTest, hasFilter = true, true
+				}
+			}
 			r.check("C17.DEPR", fmt.Sprintf("(*%s).Resolve case %q honours includeDeprecated", srv, nm), cc.Pos(), hasArgTest && hasFilter,
 				"deprecated members are returned regardless of includeDeprecated (the sibling implementations filter them unless includeDeprecated is true)")
 		}
 	}
 	r.floor("C17.DEPR", "fields / enumValues cases with members", n, 3)
+}
+
+// c17DeprFlow: in the arm of Resolve for the introspection field caseName, the member table of the
+// receiver itself reaches the result only on an edge where getBoolArg(.., "includeDeprecated") is true, and
+// the other list that reaches the result is filled by add / append calls that are all under
+// isDeprecated() == false.
+func c17DeprFlow(c *Ctx, fn *ssa.Function, caseName string) bool {
+	if len(fn.Params) == 0 {
+		return false
+	}
+	recv := fn.Params[0]
+	inArm := func(gs []guard) bool {
+		for _, g := range gs {
+			g = normGuard(g)
+			if _, lit, eq, ok := strConstCmp(g.cond); ok && lit == caseName && eq == g.val {
+				return true
+			}
+		}
+		return false
+	}
+	isFlag := func(v ssa.Value) bool {
+		call, ok := v.(*ssa.Call)
+		if !ok {
+			return false
+		}
+		f := calleeObj(call)
+		if f == nil || f.Name() != "getBoolArg" {
+			return false
+		}
+		for _, a := range call.Call.Args {
+			if s, ok := constStr(a); ok && s == "includeDeprecated" {
+				return true
+			}
+		}
+		return false
+	}
+	notDeprecated := func(b *ssa.BasicBlock) bool {
+		return hasGuard(b, func(g guard) bool {
+			call, ok := g.cond.(*ssa.Call)
+			if !ok || g.val {
+				return false
+			}
+			f := calleeObj(call)
+			return f != nil && f.Name() == "isDeprecated"
+		})
+	}
+	unfiltered, filtered, bad := false, false, false
+	seen := map[ssa.Value]bool{}
+	var visit func(v ssa.Value, gs []guard)
+	visit = func(v ssa.Value, gs []guard) {
+		v = stripIface(v)
+		if seen[v] {
+			return
+		}
+		seen[v] = true
+		if phi, ok := v.(*ssa.Phi); ok {
+			for i, e := range phi.Edges {
+				visit(e, edgeGuards(phi.Block().Preds[i], phi.Block()))
+			}
+			return
+		}
+		if !inArm(gs) {
+			return
+		}
+		switch t := v.(type) {
+		case *ssa.FieldAddr:
+			if t.X != ssa.Value(recv) {
+				return
+			}
+			ok := false
+			for _, g := range gs {
+				g = normGuard(g)
+				if isFlag(g.cond) && g.val {
+					ok = true
+				}
+			}
+			if ok {
+				unfiltered = true
+			} else {
+				bad = true
+			}
+		case *ssa.Alloc:
+			// every add to the fresh list is under !isDeprecated()
+			n := 0
+			for _, ci := range callsIn(fn) {
+				f := calleeObj(ci)
+				if f == nil || (f.Name() != "add") {
+					continue
+				}
+				if r := callRecv(ci); r == nil || rootAlloc(r) != t {
+					continue
+				}
+				n++
+				if !notDeprecated(ci.Block()) {
+					bad = true
+				}
+			}
+			if n > 0 {
+				filtered = true
+			}
+		}
+	}
+	for _, rt := range returnsOf(fn) {
+		if len(rt.Results) > 0 {
+			visit(rt.Results[0], blockGuards(rt.Block()))
+		}
+	}
+	return unfiltered && filtered && !bad
 }
 
 func mentionsConst(c *Ctx, n ast.Node, val string) (bool, bool) {
@@ -592,6 +706,15 @@ func c17Null(c *Ctx, r *Report) {
 			found = true
 			// value: phi; on the edge where GetType returned nil the value must be nil
 			ls, _ := phiLeaves(mu.Value)
+			allNil := len(ls) > 0
+			for _, l := range ls {
+				if !isNilConst(l.val) {
+					allNil = false
+				}
+			}
+			if allNil {
+				continue // an early exit of the arm that stores null whatever the lookup said
+			}
 			okNil := false
 			for _, l := range ls {
 				if !isNilConst(l.val) || l.pred == nil {
